@@ -15,7 +15,10 @@ side ExpandDecl = the manual's textual substitution carried out by hand), progra
 (G) MacroProc_Gen: TLC enumerates the replay families (0..20 parameters incl. numbers 8, 9, 12, 16, 17; positional,
     empty, keyword, mixed, default, excess arguments; arguments spelled like other parameters; counts 0..40 for
     REPT/IRP/IRPC/WHILE with a SET counter; IRPN group sizes 1..4 with ragged tails; SHIFT/ALLARGS recursion up to
-    20 arguments; EXITM inside IF in REPT/IRP/WHILE/MACRO/MACRO+REPT; labels private vs GLOBALSYMBOLS; nested
+    20 arguments; EXITM inside IF in REPT/IRP/WHILE/MACRO/MACRO+REPT; labels private vs GLOBALSYMBOLS; the private
+    symbol space across a nested construct (family `scope`: outer REPT/IRP/IRPN/IRPC/WHILE/MACRO expanded twice,
+    label defined before, used inside and after, another label defined after an inner REPT/IRP/IRPN/IRPC/WHILE/
+    macro call/empty macro/INCLUDE with 0..3 iterations, same-named global label present); nested
     INCLUDE depth 1..3 from REPT and from a macro; BINCLUDE windows over files of 0..600 bytes; INTLABEL, ALLARGS
     to IRP, macro defining a macro, ATTRIBUTE on 68000; the nesting family) and prints for each program P the hand
     expansion E = ExpandDecl(P).  The harness renders P (seed-chosen letter case / white space / label colon) and E,
@@ -55,8 +58,8 @@ PID = "C11"
 ALLDEVS = ["EmptyBodyPop", "IrpcEmptyOnce", "TokenStraddle", "ShiftExcess", "IrpPosNext", "IrpDoubleCleanup"]
 FIXED_ALL = "{" + ", ".join('"%s"' % d for d in ALLDEVS) + "}"
 
-QUICK_FAMILIES = ["exit", "label", "incl", "bin", "count", "rec", "shift", "adj", "bind", "special", "attr", "nest2q"]
-THOROUGH_FAMILIES = ["exit", "label", "incl", "bin", "count", "rec", "shift", "adj", "bind", "special", "attr",
+QUICK_FAMILIES = ["exit", "label", "scope", "incl", "bin", "count", "rec", "shift", "adj", "bind", "special", "attr", "nest2q"]
+THOROUGH_FAMILIES = ["exit", "label", "scope", "incl", "bin", "count", "rec", "shift", "adj", "bind", "special", "attr",
                      "nest2", "nest3"]
 
 
@@ -392,6 +395,12 @@ and the mutant's own ctest result recorded:
       asl has already reported "macro argument redefined"; such calls are indefinite for the property (ctest 201/201)
   MACRO_OutProcessor without KillCtrl                                     -> not reported: equivalent for the code
       file (TABs stay TABs in the stored body; white space only)                               (ctest 201/201)
+Second round (a seeded change was missed: first IRP iteration pops the handle of the ENCLOSING expansion; the
+programs never used an outer private label again after a nested construct) - family `scope` added, then on a copy
+of the current /repo:
+  IRP_Processor pops before the first iteration (the seed)                -> VIOLATION (scope)   (ctest 201/201)
+  same in IRPC_Processor / REPT_Processor / WHILE_Processor               -> VIOLATION each      (ctest 201/201)
+  MACRO_Restorer never pops                                               -> VIOLATION           (ctest 186/201)
 Corrupted traces (MacroProc_CorpusTrace on t_irpn): one token of a delivered body line changed, one delivered line
 dropped, exhausted flag flipped, depth changed -> each REJECTED at the corrupted event.
 All six proposed fixes applied together: 0 violations, no known finding hit, 201/201 golden tests.
